@@ -97,10 +97,13 @@ def coq_properties(ctx, prop, extra_files=()):
     if rc != 0:
         errs = re.findall(r'File "([^"]+)", line (\d+)[^\n]*\n(Error:[^\n]*(?:\n[^\n]+){0,3})', out)
         dep_err = "; ".join("%s:%s %s" % (a, b, c.replace("\n", " ")[:200]) for a, b, c in errs[:5]) or out[-500:]
+    from concurrent.futures import ThreadPoolExecutor
+    with ThreadPoolExecutor(max_workers=min(8, max(1, len(files)))) as ex:
+        compiled = dict(zip(files, ex.map(lambda f_: sh(["coqc", "-Q", ".", "PIQP", f_], cwd=COQ, timeout=900), files)))
     for f in files:
         txt = open(os.path.join(COQ, f)).read()
         thms = re.findall(r"^\s*(?:Theorem|Lemma)\s+(\w+)", txt, flags=re.M)
-        rc2, out2 = sh(["coqc", "-Q", ".", "PIQP", f], cwd=COQ, timeout=600)
+        rc2, out2 = compiled[f]
         # parse Print Assumptions blocks
         blocks = {}
         cur = None
